@@ -35,7 +35,9 @@ def sh(cmd, timeout=3000, cwd=None):
 def ensure_build():
     """make (no-op when nothing changed), extraction, OCaml driver.  Returns (ok, log)."""
     log = []
-    if not os.path.exists(os.path.join(COQ, "Makefile")):
+    mk = os.path.join(COQ, "Makefile")
+    cp = os.path.join(COQ, "_CoqProject")
+    if not os.path.exists(mk) or os.path.getmtime(cp) > os.path.getmtime(mk):
         rc, out = sh("coq_makefile -f _CoqProject -o Makefile", cwd=COQ)
         log.append(out)
     rc, out = sh("timeout 3000 make -k -j16 2>&1 | grep -v 'Cannot open' | tail -40", cwd=COQ)
